@@ -154,13 +154,15 @@ HEURISTICS_RS = {
 }
 
 
-def heuristics(ck, P, ref):
+def heuristics(ck, P, ref, only=None):
     """tuning conditions inside the compress functions: the condition text exists in zlib-ng's C source (frozen
     extract) and the corresponding branch atom exists in the Rust function"""
     from .. import atoms as _atoms, sig as _sig
     R = "ATOM/heuristic"
     cref = ref.get("heuristics", {})
     for hid, (rx, pats) in HEURISTICS_RS.items():
+        if only is not None and hid not in only:
+            continue
         fn = P.one_fn(rx)
         if not ck.anchor("fn %s (heuristic %s)" % (rx, hid), fn):
             continue
@@ -190,7 +192,8 @@ def heuristics(ck, P, ref):
         ck.decide(not missing, R, hid, "branch atom(s) present in %s" % fn.path.split("::")[-1],
                   "%s no longer tests %s: zlib-ng decides with this condition which bytes are emitted, so outputs diverge for inputs that "
                   "reach it" % (fn.path, missing), where(fn))
-    ck.floor(R, len(HEURISTICS_RS), 15)
+    if only is None:
+        ck.floor(R, len(HEURISTICS_RS), 15)
 
 
 def run_thorough(ck):
